@@ -4,7 +4,7 @@ use serde_json::Value;
 
 use crate::generator::ast::{
   DiscriminatedEnumDef, DiscriminatedVariant, Documentation, EnumDef, EnumMethod, EnumToken, EnumVariantToken,
-  RustType, SerdeAttribute, VariantDef,
+  RustType, SerdeAttribute, VariantContent, VariantDef,
 };
 
 #[derive(Copy, Clone, PartialEq, Eq, Debug)]
@@ -78,12 +78,16 @@ impl RustType {
     variants: Vec<VariantDef>,
     methods: Vec<EnumMethod>,
   ) -> Self {
+    // A unit variant of an untagged enum is read from and written as the JSON unit (`null`), so a union
+    // made of `const` alternatives only is (de)serialized by its renamed variant names instead.
+    let all_unit = !variants.is_empty() && variants.iter().all(|v| matches!(v.content, VariantContent::Unit));
+    let serde_attrs = if all_unit { vec![] } else { vec![SerdeAttribute::Untagged] };
     RustType::Enum(
       EnumDef::builder()
         .name(EnumToken::from_raw(name))
         .docs(Documentation::from_optional(schema.description.as_ref()))
         .variants(variants)
-        .serde_attrs(vec![SerdeAttribute::Untagged])
+        .serde_attrs(serde_attrs)
         .case_insensitive(false)
         .methods(methods)
         .build(),
